@@ -20,7 +20,7 @@ def seeded_table():
         note = c.get("note", "")
         clean = lambda s: re.sub(r"\s+", " ", str(s)).replace("|", "/")
         rows.append(f"| {pid}/{m} | {clean(d.get('clause',''))[:160]} | {clean(', '.join(os.path.basename(f) for f in d.get('files', [])))} | {clean(d.get('needs',''))[:200]} | {clean(st)}{(' - ' + clean(note)[:220]) if note else ''} |")
-    rows += ["", f"Totals: {tot} seeded changes; {caught} caught by the quick tier as first built; {later} missed at first and caught after the check was strengthened; {tot - caught - later} not caught by the property's own quick tier (see notes)."]
+    rows += ["", f"Totals: {tot} seeded changes; {caught} caught by the quick tier as it stood when the change was seeded; {later} missed at first and caught after the check was strengthened; {tot - caught - later} not caught by the property's own quick tier (see notes)."]
     return "\n".join(rows)
 
 def headers():
